@@ -5,16 +5,23 @@ package rules
 // other init of the package (file name) and only widens Props.
 
 var round7Registrations = map[string][]string{
-	"R-CMP-6":  {"C03"}, // BETWEEN / IN expansions decide which rows a WHERE keeps (C03-13)
-	"R-PAR-3":  {"C17"}, // the partitions of Analyze are built in row order (C17-13)
-	"R-TXN-6":  {"C02"}, // a cancelled encode never reports success: the file would hold a prefix of the table (C02-14)
-	"R-SCP-1":  {"C05"}, // a data-changing statement stores its result back where the innermost-first lookup found the table (C05-14)
-	"R-LOCK-6": {"C08"}, // a failing CREATE TABLE releases the handler it created (C08-13)
-	"R-OWN-1":  {"C08"}, // … and only the owner of a handler releases it
-	"R-ERR-14": {"C08"}, // round 8: a result published before its check has been passed stays behind when the check fails (C08-16)
-	"R-TXN-4":  {"C08"}, // round 8: every publisher is followed by its registration as uncommitted (C08-16)
-	"R-DET-2":  {"C18"}, // round 8: the parser keeps no lazily built package-level table (C18-16)
-	"R-MEMO-1": {"C18"},
+	"R-CMP-6":   {"C03"}, // BETWEEN / IN expansions decide which rows a WHERE keeps (C03-13)
+	"R-PAR-3":   {"C17"}, // the partitions of Analyze are built in row order (C17-13)
+	"R-TXN-6":   {"C02"}, // a cancelled encode never reports success: the file would hold a prefix of the table (C02-14)
+	"R-SCP-1":   {"C05"}, // a data-changing statement stores its result back where the innermost-first lookup found the table (C05-14)
+	"R-LOCK-6":  {"C08"}, // a failing CREATE TABLE releases the handler it created (C08-13)
+	"R-OWN-1":   {"C08"}, // … and only the owner of a handler releases it
+	"R-ERR-14":  {"C08"}, // round 8: a result published before its check has been passed stays behind when the check fails (C08-16)
+	"R-TXN-4":   {"C08"}, // round 8: every publisher is followed by its registration as uncommitted (C08-16)
+	"R-DET-2":   {"C18"}, // round 8: the parser keeps no lazily built package-level table (C18-16)
+	"R-MEMO-1":  {"C18"},
+	"R-LOCK-1":  {"C10"}, // round 8: the temp file COMMIT encodes into is created exclusively (O_EXCL), never opened with O_TRUNC over a live one (C10-16)
+	"R-LOCK-4":  {"C10"}, // round 8: … and only under the lock of its table (C10-16)
+	"R-CLEAN-2": {"C01"}, // round 8: a failed COMMIT leaves no created table behind: close removes the created file on every path (C01-15)
+	"R-CLEAN-6": {"C01"},
+	"R-ISO-1":   {"C05"}, // round 8: UPDATE / DELETE work on a copy; the records of the cached table are never shifted in place (C05-15)
+	"R-ISO-2":   {"C05"},
+	"R-SRT-5":   {"C14"}, // round 8: a per-cell cache carried over a re-projection makes a later clause read another cell's value (C14-16)
 }
 
 func init() {
